@@ -82,7 +82,7 @@ def run(tier, seed):
     for N in orders:
         moments_unit(pr, N, tier)
     obs = pr.obs
-    obs += vl.run_lemmas("C04", ["lemma_fold", "swap"])
+    obs += vl.run_lemmas("C04", ["lemma_fold", "swap", "realizable", "bridge"])
     meta = {
         "level": "proof",
         "checker_cmd": "./check C04 (rsx expand define_moments_common! -> RS executor -> sympy / z3 QF_NRA; verus history.rs)",
